@@ -175,7 +175,9 @@ fn check_validator_x(fmt: u8, n: usize, ff: usize, mode: Mode, ffw: Option<usize
 /// `stave`: the same in `check all its-stave`, where the protocol state includes the open readout frame (the lane data
 /// collected since the last non-continuation TDH): lead-ins are the prefixes of a page with one complete ALPIDE frame
 /// and of a page that leaves a frame open; the conforming HBF that follows carries a complete frame of its own.
-fn check_reset_in(fmt: u8, ff: usize, lead_words: usize, stave: bool) -> Option<(String, String)> {
+/// `bad_stop`: the stop bit of the RDH whose payload is rejected (a rejected payload in the packet that closes the HBF
+/// must reset the state like any other).
+fn check_reset_in(fmt: u8, ff: usize, lead_words: usize, stave: bool, bad_stop: u8) -> Option<(String, String)> {
     let cfg: &'static MockConfig = val::mode_cfg(if stave { Mode::AllStave } else { Mode::AllIts });
     let mut lc = LinkCfg::ib(0, 0);
     lc.data_format = fmt;
@@ -212,6 +214,7 @@ fn check_reset_in(fmt: u8, ff: usize, lead_words: usize, stave: bool) -> Option<
             let bad = build_payload(fmt, 3, ff);
             let mut h2 = conforming[0].packet.rdh.clone();
             h2.pages_counter = 1;
+            h2.stop_bit = bad_stop;
             h2.memory_size = (64 + bad.len()) as u16;
             h2.offset_next = h2.memory_size;
             lv.verif_step((val::rdh_from(&h2.encode()), bad, 0x1000 + round * 0x800));
@@ -537,19 +540,21 @@ pub fn run(tier: Tier) -> i32 {
     let mut rcases = Vec::new();
     for fmt in [0u8, 2] {
         for ff in [16usize, 17, 25, 40] {
-            for lead in 1..=14usize {
-                rcases.push((fmt, ff, lead, false));
-            }
-            // stave mode: the open readout frame is part of the state
-            for lead in 1..=24usize {
-                rcases.push((fmt, ff, lead, true));
+            for bad_stop in [0u8, 1] {
+                for lead in 1..=14usize {
+                    rcases.push((fmt, ff, lead, false, bad_stop));
+                }
+                // stave mode: the open readout frame is part of the state
+                for lead in 1..=24usize {
+                    rcases.push((fmt, ff, lead, true, bad_stop));
+                }
             }
         }
     }
-    let r3 = par_map(&rcases, |_, (f, k, l, st)| check_reset_in(*f, *k, *l, *st));
-    for ((f, k, l, st), r) in rcases.iter().zip(r3.iter()) {
+    let r3 = par_map(&rcases, |_, (f, k, l, st, bs)| check_reset_in(*f, *k, *l, *st, *bs));
+    for ((f, k, l, st, bs), r) in rcases.iter().zip(r3.iter()) {
         if let Some((sig, d)) = r {
-            rep.violation(Violation { signature: if *st { format!("{sig}:stave-mode") } else { sig.clone() }, description: format!("{d} [format {f}, {k} x 0xFF, {l} lead-in words{}]", if *st { ", check all its-stave" } else { "" }), replay: json!({"kind": "reset", "fmt": f, "ff": k, "lead": l, "stave": st}) });
+            rep.violation(Violation { signature: if *st { format!("{sig}:stave-mode") } else { sig.clone() }, description: format!("{d} [format {f}, {k} x 0xFF, {l} lead-in words, stop bit of the rejected packet {bs}{}]", if *st { ", check all its-stave" } else { "" }), replay: json!({"kind": "reset", "fmt": f, "ff": k, "lead": l, "stave": st, "bad_stop": bs}) });
         }
     }
     for fmt in [0u8, 2] {
@@ -585,7 +590,7 @@ pub fn run(tier: Tier) -> i32 {
     rep.cov("evaluations", json!(cases.len() + vcases.len() + rcases.len() + wcases.len()));
     rep.cov("distinct_nontrivial", json!(nontrivial));
     rep.cov("exhaustive", json!(true));
-    rep.cov("rule", json!("formats {0,2} x word counts {0..=12, 511, 512, 700 (quick) / every count 0..=700 (thorough)} x 0..=40 trailing 0xFF bytes through preprocess_payload and (x 2 modes) through a real LinkValidator with individually recognisable faulty words; all 63 proper subsets of zero bytes among the first six bytes of the second word of a format-2 payload (must not be taken for format 0); reset after the padding error for 16/17/25/40 bytes x 14 lead-in states (every prefix of a complete page and of a page that ends with TDT packet_done = 0) x 2 formats; the two readout-frame views through the real CLI for word counts {2,3,8..11,16} (quick) / {2..=40,511,512,700} (thorough) x 0..=15 padding bytes (and 16..=40: the payload is rejected, nothing of it is shown, the next packet is) x 2 formats, every printed row compared with the model's decode. non-trivial = at least one padding byte present"));
+    rep.cov("rule", json!("formats {0,2} x word counts {0..=12, 511, 512, 700 (quick) / every count 0..=700 (thorough)} x 0..=40 trailing 0xFF bytes through preprocess_payload and (x 2 modes) through a real LinkValidator with individually recognisable faulty words; all 63 proper subsets of zero bytes among the first six bytes of the second word of a format-2 payload (must not be taken for format 0); reset after the padding error for 16/17/25/40 bytes x stop bit 0/1 of the rejected packet x 14 lead-in states (every prefix of a complete page and of a page that ends with TDT packet_done = 0) x 2 formats; the two readout-frame views through the real CLI for word counts {2,3,8..11,16} (quick) / {2..=40,511,512,700} (thorough) x 0..=15 padding bytes (and 16..=40: the payload is rejected, nothing of it is shown, the next packet is) x 2 formats, every printed row compared with the model's decode. non-trivial = at least one padding byte present"));
     rep.sample(json!({"fmt": 2, "words": 3, "ff": 10, "payload_hex": hex(&build_payload(2, 3, 10))}));
     rep.sample(json!({"fmt": 0, "words": 2, "ff": 16, "expect": "one 'Payload error following RDH', no word examined, FSM reset"}));
     rep.assume("word contents do not imitate the other format's padding (a format-2 payload whose bytes 10..15 are all zero is the separate row of C02/known findings)");
@@ -601,7 +606,7 @@ pub fn replay(v: &serde_json::Value) -> i32 {
         "view" => check_view(g("fmt") as u8, g("n"), g("ff"), r["data"].as_bool().unwrap_or(false)),
         "reset-history" => check_reset_history(g("fmt") as u8, g("ff")),
         "validator" => check_validator_x(g("fmt") as u8, g("n"), g("ff"), if r["mode"] == "check sanity its" { Mode::SanityIts } else { Mode::AllIts }, r["ffw"].as_u64().map(|x| x as usize)),
-        _ => check_reset_in(g("fmt") as u8, g("ff"), g("lead"), r["stave"].as_bool().unwrap_or(false)),
+        _ => check_reset_in(g("fmt") as u8, g("ff"), g("lead"), r["stave"].as_bool().unwrap_or(false), g("bad_stop") as u8),
     };
     match res {
         Some((s, d)) => {
